@@ -51,6 +51,8 @@ impl<'de, 'a> DeserializeSeed<'de> for TySeed<'a> {
             "Optbool" => Option::<bool>::deserialize(d)?.map_or("none".into(), |v| format!("b:{}", v)),
             "I64OrNone" => calamine::deserialize_as_i64_or_none(d)?.map_or("none".into(), |v| format!("i:{}", v)),
             "F64OrNone" => calamine::deserialize_as_f64_or_none(d)?.map_or("none".into(), |v| format!("f:{:?}", v)),
+            "I64OrString" => match calamine::deserialize_as_i64_or_string(d)? { Ok(v) => format!("i:{}", v), Err(t) => format!("es:{}", t) },
+            "F64OrString" => match calamine::deserialize_as_f64_or_string(d)? { Ok(v) => format!("f:{:?}", v), Err(t) => format!("es:{}", t) },
             t => panic!("harness: unknown type {}", t),
         })
     }
@@ -381,7 +383,7 @@ pub fn drive(args: &Args) -> i32 {
     let maxh = args.num("maxh", 20) as usize;
     let mut rng = StdRng::seed_from_u64(args.seed() ^ 0x0909);
     let mut out = std::io::BufWriter::new(std::fs::File::create(args.req("out")).unwrap());
-    let types = ["String", "f64", "i64", "bool", "Data", "OptString", "Optf64", "Opti64", "Optbool", "I64OrNone", "F64OrNone"];
+    let types = ["String", "f64", "i64", "bool", "Data", "OptString", "Optf64", "Opti64", "Optbool", "I64OrNone", "F64OrNone", "I64OrString", "F64OrString"];
     let ok = |t: &str| -> Vec<&'static str> {
         let base = t.trim_start_matches("Opt");
         let mut v: Vec<&'static str> = match base {
@@ -389,7 +391,7 @@ pub fn drive(args: &Args) -> i32 {
             "f64" => vec!["I7", "F1.5", "F2", "S12", "S1.5", "Sx"],
             "i64" => vec!["I7", "Ibig", "F2", "F1.5", "S12", "Sx"],
             "bool" => vec!["I7", "I0", "F1.5", "F0", "F0.5", "B1", "B0", "STRUE", "Sfalse", "Strue", "STrue", "SFALSE", "SFalse", "E", "Sx"],
-            "I64OrNone" | "F64OrNone" => vec!["E", "I7", "F2", "F1.5", "S12", "S1.5", "Sx", "B1", "B0", "STRUE"],
+            "I64OrNone" | "F64OrNone" | "I64OrString" | "F64OrString" => vec!["E", "I7", "F2", "F1.5", "S12", "S1.5", "Sx", "B1", "B0", "STRUE"],
             _ => vec!["E", "S0", "I7", "F1.5", "Sx", "B1"],
         };
         if t.starts_with("Opt") {
